@@ -318,7 +318,9 @@ CHECKS["C13"]["text"] += (" Histories: re-expressing the SAME array / label-list
 CHECKS["C13"]["text"] += (" util.validate_intervals, intervals_to_durations, intervals_to_boundaries, boundaries_to_intervals, "
                           "sort_labeled_intervals, adjust_events and adjust_intervals are REGENERATED from the source on every run "
                           "(translator part utilint -> MirGen/UtilInt.lean) and proved equal to the hand model for all interval / "
-                          "label lists and crop points, value or exception class (Props/C13_Gen.lean).")
+                          "label lists and crop points, value or exception class (Props/C13_Gen.lean); since the loop stage also "
+                          "interpolate_intervals, intervals_to_samples, merge_labeled_intervals, index_labels (both case modes, "
+                          "with the inverse dict) and generate_labels, their `for` loops as structurally recursive definitions.")
 CHECKS["C14"]["text"] += (" Valid annotation objects are scored a second time by the same and by other entry points of the task "
                           "(a call that damages its input makes the next call reject a valid annotation).")
 CHECKS["C15"]["text"] += (" Histories include evaluate() of several tasks with non-default metric keywords (keyword routing must "
